@@ -139,18 +139,6 @@ func H_c09_words() {
 	symReach("end")
 }
 
-// printable Latin-1: U+0020..U+007E or U+00A0..U+00FF, symbolic
-func c18SymLatin1Printable() string {
-	if symInt(0, 1) == 0 {
-		b := symByte()
-		symAssume(b >= 0x20 && b < 0x7f)
-		return string([]byte{b})
-	}
-	lead, cont := symByte(), symByte()
-	symAssume((lead == 0xc2 && cont >= 0xa0 && cont <= 0xbf) || (lead == 0xc3 && cont >= 0x80 && cont <= 0xbf))
-	return string([]byte{lead, cont})
-}
-
 // C09 K4: address normalisation for the three documented forms
 func H_c09_address() {
 	L := symParam("L", 3)
